@@ -351,7 +351,6 @@ Proof.
     rewrite (proj2 (uname_prov _ _ _ Hp)) in Hpi. apply in_map_iff in Hpi as (pk & <- & Hpk).
     apply rmv_var in Hz as [Hb Hz]. rewrite binds1 in Hb. eapply Hdel, Hins; eauto.
   - intros Γ sh rs s pay cont from k T A B m Hc Hw Hb1 Hb2 Hne Hs1 Hs2 Hk IH pi z Hpi Hz.
-    destruct (uname_client_subst Δ Γ sh from from (ident from) [] T from T eq_refl eq_refl) as [_ _] || idtac.
     assert (Hpd : pdes sh from = false).
     { destruct Hc as [Hs [_ Hc]]. unfold pdes, initialized. destruct (chan from); simpl; auto.
       destruct Hc as [Hc _]. by rewrite (prov_ref_false sh from Hs Hc). }
@@ -556,4 +555,158 @@ Proof.
     apply String.eqb_neq in E1. rewrite (IHk (<[ident pay := A0]> Γ)); [|apply insert_commute; auto|auto|set_solver].
     apply paths_go0. rewrite binds1. by apply String.eqb_neq.
 Qed.
+
+Lemma pnames_subst Δ Γ sh rs s f old new kc A :
+  chan old = None -> chan new = Some kc -> sh <> Some (ident old) -> ident old ∉ rs ->
+  typed Δ (<[ident old := A]> Γ) sh rs s f ->
+  pnames sh (subst old new f) = map (map (ren (ident old) kc)) (pnames sh f).
+Proof. intros Ho Hn Hsh Hrs H. eapply (pnames_subst_mut Δ old new (ident old) kc A); eauto. Qed.
+
+Lemma aff_subst Δ Γ sh rs s f old new kc A :
+  chan old = None -> chan new = Some kc -> sh <> Some (ident old) -> ident old ∉ rs ->
+  typed Δ (<[ident old := A]> Γ) sh rs s f ->
+  ~ In kc (form_chans f) -> aff sh f -> aff sh (subst old new f).
+Proof.
+  intros Ho Hn Hsh Hrs Hty Hf Ha. unfold aff in *. erewrite pnames_subst; eauto.
+  rewrite Forall_forall in *. intros pi' Hpi'. apply in_map_iff in Hpi' as (pi & <- & Hpi).
+  apply NoDup_ren; [|by apply Ha].
+  intros Hin. apply Hf. eapply (proj1 path_chans_mut); eauto. by apply elem_of_list_In.
+Qed.
+
+(* ... and keeps every scope affine *)
+Lemma affr_subst_mut Δ old new x kc A :
+  chan old = None -> ident old = x -> chan new = Some kc ->
+  (forall Γ' sh rs s f, typed Δ Γ' sh rs s f ->
+     forall Γ, Γ' = <[x := A]> Γ -> sh <> Some x -> x ∉ rs -> ~ In kc (form_chans f) ->
+     affr sh f -> affr sh (subst old new f)) /\
+  (forall Γ' rs bs b, typed_brs_p Δ Γ' rs bs b ->
+     forall Γ, Γ' = <[x := A]> Γ -> x ∉ rs -> ~ In kc (brs_chans b) ->
+     affr_bp b -> affr_bp (subst_brs old new b)) /\
+  (forall Γ' sh rs s bs b, typed_brs_c Δ Γ' sh rs s bs b ->
+     forall Γ, Γ' = <[x := A]> Γ -> sh <> Some x -> x ∉ rs -> ~ In kc (brs_chans b) ->
+     affr_bc sh b -> affr_bc sh (subst_brs old new b)).
+Proof.
+  intros Ho Hx Hn. subst x.
+  assert (Hcl : forall Γ sh n t, sh <> Some (ident old) -> client_ty Δ (<[ident old := A]> Γ) sh n t ->
+     pdes sh (name_subst old new n) = false /\ pdes sh n = false).
+  { intros Γ sh n t Hsh Hc. eapply (uname_client_subst Δ Γ sh old new (ident old) kc A n t); eauto. }
+  assert (Hpr : forall sh rs n, sh <> Some (ident old) -> ident old ∉ rs -> prov_name sh rs n ->
+     name_subst old new n = n /\ pdes sh n = true).
+  { intros sh rs n ? ? Hp. split; [eapply prov_name_subst; eauto|eapply uname_prov; eauto]. }
+  assert (Haff : forall Γ sh rs s f, typed Δ (<[ident old := A]> Γ) sh rs s f -> sh <> Some (ident old) -> ident old ∉ rs ->
+     ~ In kc (form_chans f) -> affr sh f -> aff sh (subst old new f)).
+  { intros. eapply aff_subst; eauto using affr_aff. }
+  Local Ltac start T :=
+    match goal with
+    | Haff : _ |- affr ?sh (subst ?o ?n ?f) =>
+      let H0 := fresh "H0" in
+      assert (H0 : aff sh (subst o n f)) by (eapply Haff; eauto; T); simpl; split; [exact H0|clear H0]
+    end.
+  apply typed_mutind.
+  - (* SendP *) intros Γ' sh rs s to pay cont A0 B m Hp Hw Hc1 Hc2 Γ -> Hsh Hrs Hf Ha.
+    start ltac:(eapply T_SendP; eauto). exact I.
+  - (* SendC *) intros Γ' sh rs s to pay cont T A0 B m Hc1 Hw Hc2 Hp Ht Γ -> Hsh Hrs Hf Ha.
+    start ltac:(eapply T_SendC; eauto). exact I.
+  - (* RecvP *) intros Γ' sh rs s pay cont from k A0 B m Hp Hw Hbp Hbc Hne Hk IH Γ -> Hsh Hrs Hf Ha.
+    start ltac:(eapply T_RecvP; eauto).
+    simpl in Ha |- *. destruct Ha as [_ Ha]. destruct (Hpr _ _ _ Hsh Hrs Hp) as (-> & Hpd). rewrite Hpd in *.
+    rewrite (binder_eqb pay old), (binder_eqb cont old) by auto.
+    destruct (String.eqb (ident pay) (ident old)) eqn:E1; simpl; [exact Ha|]. apply String.eqb_neq in E1.
+    destruct (String.eqb (ident cont) (ident old)) eqn:E2; simpl; [exact Ha|]. apply String.eqb_neq in E2.
+    apply (IH (<[ident pay := A0]> (delete (ident cont) Γ))); [|congruence|set_solver| |exact Ha].
+    + rewrite del_ins_ne by auto. apply insert_commute; auto.
+    + intros H. apply Hf. simpl. apply in_app_iff. by right.
+  - (* RecvC *) intros Γ' sh rs s pay cont from k T A0 B m Hc Hw Hbp Hbc Hne Hs1 Hs2 Hk IH Γ -> Hsh Hrs Hf Ha.
+    start ltac:(eapply T_RecvC; eauto).
+    simpl in Ha |- *. destruct Ha as [_ Ha]. destruct (Hcl _ _ _ _ Hsh Hc) as (Hpd' & Hpd). rewrite Hpd' . rewrite Hpd in Ha.
+    rewrite (binder_eqb pay old), (binder_eqb cont old) by auto.
+    destruct (String.eqb (ident pay) (ident old)) eqn:E1; simpl; [exact Ha|]. apply String.eqb_neq in E1.
+    destruct (String.eqb (ident cont) (ident old)) eqn:E2; simpl; [exact Ha|]. apply String.eqb_neq in E2.
+    apply (IH (<[ident cont := B]> (<[ident pay := A0]> Γ))); [|auto|set_solver| |exact Ha].
+    + rewrite (insert_commute _ (ident pay) (ident old)) by auto. rewrite (insert_commute _ (ident cont) (ident old)) by auto. reflexivity.
+    + intros H. apply Hf. simpl. apply in_app_iff. by right.
+  - (* SelP *) intros Γ' sh rs s to l cont bs m A0 Hp Hw Hfb Hc Γ -> Hsh Hrs Hf Ha.
+    start ltac:(eapply T_SelP; eauto). exact I.
+  - (* SelC *) intros Γ' sh rs s to l cont T bs m A0 Hc Hw Hfb Hp Ht Γ -> Hsh Hrs Hf Ha.
+    start ltac:(eapply T_SelC; eauto). exact I.
+  - (* CaseP *) intros Γ' sh rs s from b bs m Hp Hw Hcov Hb IH Γ -> Hsh Hrs Hf Ha.
+    start ltac:(eapply T_CaseP; eauto).
+    simpl in Ha |- *. destruct Ha as [_ Ha]. destruct (Hpr _ _ _ Hsh Hrs Hp) as (-> & Hpd). rewrite Hpd in *.
+    apply (IH Γ); auto. intros H. apply Hf. simpl. apply in_app_iff. by right.
+  - (* CaseC *) intros Γ' sh rs s from b T bs m Hc Hw Hcov Hb IH Γ -> Hsh Hrs Hf Ha.
+    start ltac:(eapply T_CaseC; eauto).
+    simpl in Ha |- *. destruct Ha as [_ Ha]. destruct (Hcl _ _ _ _ Hsh Hc) as (Hpd' & Hpd). rewrite Hpd'. rewrite Hpd in Ha.
+    apply (IH Γ); auto. intros H. apply Hf. simpl. apply in_app_iff. by right.
+  - (* New *) intros Γ' sh rs s y body k A0 Hb Hs1 Hbody IHb Hk IHk Γ -> Hsh Hrs Hf Ha.
+    start ltac:(eapply T_New; eauto).
+    simpl in Ha |- *. destruct Ha as [_ [Ha1 Ha2]]. split.
+    + apply (IHb Γ); [reflexivity|discriminate|exact Hrs| |exact Ha1]. intros H. apply Hf. simpl. apply in_app_iff. by left.
+    + rewrite (binder_eqb y old) by auto.
+      destruct (String.eqb (ident y) (ident old)) eqn:E1; simpl; [exact Ha2|]. apply String.eqb_neq in E1.
+      apply (IHk (<[ident y := A0]> Γ)); [apply insert_commute; auto|auto|set_solver| |exact Ha2].
+      intros H. apply Hf. simpl. apply in_app_iff. by right.
+  - (* Close *) intros Γ' sh rs s c m Hp Hw Γ -> Hsh Hrs Hf Ha.
+    start ltac:(eapply T_Close; eauto). exact I.
+  - (* Wait *) intros Γ' sh rs s c k T m Hc Hw Hk IH Γ -> Hsh Hrs Hf Ha.
+    start ltac:(eapply T_Wait; eauto).
+    simpl in Ha |- *. destruct Ha as [_ Ha]. apply (IH Γ); auto. intros H. apply Hf. simpl. apply in_app_iff. by right.
+  - (* Fwd *) intros Γ' sh rs s to from d Hp Hc Γ -> Hsh Hrs Hf Ha.
+    start ltac:(eapply T_Fwd; eauto). exact I.
+  - (* Drop *) intros Γ' sh rs s c k T Hc Hk IH Γ -> Hsh Hrs Hf Ha.
+    start ltac:(eapply T_Drop; eauto).
+    simpl in Ha |- *. destruct Ha as [_ Ha]. apply (IH Γ); auto. intros H. apply Hf. simpl. apply in_app_iff. by right.
+  - (* Call *) intros Γ' sh rs s fn args pt fd tf Hg Hfn Ht Hargs Γ -> Hsh Hrs Hf Ha.
+    start ltac:(eapply T_Call; eauto). exact I.
+  - (* CastP *) intros Γ' sh rs s to cont fm tm A0 Hp Hw Hc Γ -> Hsh Hrs Hf Ha.
+    start ltac:(eapply T_CastP; eauto). exact I.
+  - (* CastC *) intros Γ' sh rs s to cont T fm tm A0 Hc Hw Hp Ht Γ -> Hsh Hrs Hf Ha.
+    start ltac:(eapply T_CastC; eauto). exact I.
+  - (* ShiftP *) intros Γ' sh rs s y from k fm tm A0 Hp Hw Hb Hk IH Γ -> Hsh Hrs Hf Ha.
+    start ltac:(eapply T_ShiftP; eauto).
+    simpl in Ha |- *. destruct Ha as [_ Ha]. destruct (Hpr _ _ _ Hsh Hrs Hp) as (-> & Hpd). rewrite Hpd in *.
+    rewrite (binder_eqb y old) by auto.
+    destruct (String.eqb (ident y) (ident old)) eqn:E1; simpl; [exact Ha|]. apply String.eqb_neq in E1.
+    apply (IH (delete (ident y) Γ)); [by rewrite del_ins_ne|congruence|set_solver| |exact Ha].
+    intros H. apply Hf. simpl. apply in_app_iff. by right.
+  - (* ShiftC *) intros Γ' sh rs s y from k T fm tm A0 Hc Hw Hb Hs1 Hk IH Γ -> Hsh Hrs Hf Ha.
+    start ltac:(eapply T_ShiftC; eauto).
+    simpl in Ha |- *. destruct Ha as [_ Ha]. destruct (Hcl _ _ _ _ Hsh Hc) as (Hpd' & Hpd). rewrite Hpd'. rewrite Hpd in Ha.
+    rewrite (binder_eqb y old) by auto.
+    destruct (String.eqb (ident y) (ident old)) eqn:E1; simpl; [exact Ha|]. apply String.eqb_neq in E1.
+    apply (IH (<[ident y := A0]> Γ)); [apply insert_commute; auto|auto|set_solver| |exact Ha].
+    intros H. apply Hf. simpl. apply in_app_iff. by right.
+  - (* Split *) intros Γ' sh rs s x0 y from k T Hc Hbx Hby Hne Hs1 Hs2 Hk IH Γ -> Hsh Hrs Hf Ha.
+    start ltac:(eapply T_Split; eauto).
+    simpl in Ha |- *. destruct Ha as [_ Ha].
+    rewrite (binder_eqb x0 old), (binder_eqb y old) by auto.
+    destruct (String.eqb (ident x0) (ident old)) eqn:E1; simpl; [exact Ha|]. apply String.eqb_neq in E1.
+    destruct (String.eqb (ident y) (ident old)) eqn:E2; simpl; [exact Ha|]. apply String.eqb_neq in E2.
+    apply (IH (<[ident y := T]> (<[ident x0 := T]> Γ))); [|auto|set_solver| |exact Ha].
+    + rewrite (insert_commute _ (ident x0) (ident old)) by auto. rewrite (insert_commute _ (ident y) (ident old)) by auto. reflexivity.
+    + intros H. apply Hf. simpl. apply in_app_iff. by right.
+  - (* Print *) intros Γ' sh rs s l k Hk IH Γ -> Hsh Hrs Hf Ha.
+    start ltac:(eapply T_Print; eauto).
+    simpl in Ha |- *. destruct Ha as [_ Ha]. apply (IH Γ); auto.
+  - (* brs_p nil *) intros; simpl. exact I.
+  - (* brs_p cons *) intros Γ' rs bs l pay k r A0 Hfb Hb Hk IHk Hr IHr Γ -> Hrs Hf [Ha1 Ha2]; simpl. split.
+    + rewrite (binder_eqb pay old) by auto.
+      destruct (String.eqb (ident pay) (ident old)) eqn:E1; simpl; [exact Ha1|]. apply String.eqb_neq in E1.
+      apply (IHk (delete (ident pay) Γ)); [by rewrite del_ins_ne|congruence|set_solver| |exact Ha1].
+      intros H. apply Hf. simpl. apply in_app_iff. by left.
+    + apply (IHr Γ); auto. intros H. apply Hf. simpl. apply in_app_iff. by right.
+  - (* brs_c nil *) intros; simpl. exact I.
+  - (* brs_c cons *) intros Γ' sh rs s bs l pay k r A0 Hfb Hb Hs1 Hk IHk Hr IHr Γ -> Hsh Hrs Hf [Ha1 Ha2]; simpl. split.
+    + rewrite (binder_eqb pay old) by auto.
+      destruct (String.eqb (ident pay) (ident old)) eqn:E1; simpl; [exact Ha1|]. apply String.eqb_neq in E1.
+      apply (IHk (<[ident pay := A0]> Γ)); [apply insert_commute; auto|auto|set_solver| |exact Ha1].
+      intros H. apply Hf. simpl. apply in_app_iff. by left.
+    + apply (IHr Γ); auto. intros H. apply Hf. simpl. apply in_app_iff. by right.
+  Unshelve. all: exact ∅.
+Qed.
+
+Lemma affr_subst Δ Γ sh rs s f old new kc A :
+  chan old = None -> chan new = Some kc -> sh <> Some (ident old) -> ident old ∉ rs ->
+  typed Δ (<[ident old := A]> Γ) sh rs s f ->
+  ~ In kc (form_chans f) -> affr sh f -> affr sh (subst old new f).
+Proof. intros Ho Hn Hsh Hrs H. eapply (affr_subst_mut Δ old new (ident old) kc A); eauto. Qed.
 End Paths.
